@@ -2,9 +2,13 @@
 import framework as fw, vm
 
 def run(prop, tier, seed, wd, t0):
-    jobs = [vm.step_ref(tier, [prop]), vm.debug_op(tier, [prop]), vm.fresh(tier, [prop]), vm.execute(tier, [prop])]
+    jobs = [vm.step_ref(tier, [prop]), vm.debug_op(tier, [prop]), vm.fresh(tier, [prop])]
+    def extra(out):
+        import ctv
+        return ctv.run_family(prop, tier, seed, wd, out, ('h_ctv_exec',), tags=[prop])
     return fw.run_e1(prop, tier, seed, wd, t0, jobs, fw.COMMON_ASSUMPTIONS + [
         'ghost model: set E of enabled locations; Inv_en: enabled_breakpoints == E and a site holds BREAK iff its location is in E'],
         'Layer A per method: executeSingle() reports a stop exactly for BREAK, for POTENTIAL_BREAK while stepping, and for HALT, and getCurrentBreak() then returns the '
         "site's file and line; setBreakPoint succeeds exactly for listed locations and updates E as specified, clearBreakpoints empties it, all preserve Inv_en; "
-        'execute() stops at the first position where the rule fires (shadow run of executeSingle with the rule as oracle, bounded fuel); a constructed machine reports none.')
+        'a constructed machine reports none. execute(): on natively compiled program shapes (symbolic literals) the stepping run driven only by execute()/isDone() returns once per '
+        'breakpoint site on the path, each time reporting the site\'s file and line, and ends at the end of the program (the layer-A shadow-run formulation of execute() timed out at 600 s and was replaced by this one).', extra=extra)
